@@ -28,7 +28,8 @@ HARNESS = ["h_C14.cpp"]
 # backing arrays and an all-other-fields-zero check.
 VARIANT = "plain"
 RULE = ("every macro-generated parameter kind (rParam/char, rParamF, rParamI, rOption on int and on scoped-enum fields, rToggle, rString of "
-        "length 1/5/16, rArrayI, rArrayF, rArrayOption, rArrayT, both ports of rParams) with run-time names "
+        "length 1/5/16, rArrayI, rArrayF, rArrayOption, rArrayT, both ports of rParams, rCOptionCb over a counting setter, "
+        "rArrayTCbMember on a struct array) with run-time names "
         "(with and without digits), array lengths 1..16, dispatched at the root or below rRecur; declared "
         "min/max absent / negative / fractional (float kinds) / type extremes; initial contents arbitrary "
         "(also outside the range); 1..12 sets and queries per case with incoming values in range, at and "
@@ -508,7 +509,9 @@ TECHNIQUE = ("Coq proofs (case analysis per callback, induction over the address
              "against the real macro-generated callbacks dispatched through Ports::dispatch")
 LEVEL_TEXT = ("For every port environment, address, stored value, incoming value and message history the model's callbacks "
               "store the clamped value, answer queries purely, broadcast the stored value, emit exactly one undo event "
-              "(address, previous, new) iff the value changed, touch only the addressed array element, truncate strings and "
+              "(address, previous, new) iff the value changed - carrying the port's own argument type, so that the event's old / new "
+              "value messages dispatched to the port restore / re-store the value (C14_undo_event_replays) -, touch only the "
+              "addressed array element, truncate strings and "
               "translate known symbols (theorems of Properties_C14.v). The model is tied to the code on every run by running "
               "both on the same generated ports and message sequences and comparing every emitted message and the object.")
 LEVEL_NOTE = ("Trusted: Coq kernel, extraction (ExtrOcamlBasic), OCaml driver, harness, generator, Python's atoi/atof stand-ins. "
